@@ -10,7 +10,8 @@ EXTENDS Printer, Json
 
 CONSTANTS Mode,     \* "dump" | "race"
           MaxG,     \* goroutines per dump / operations per report
-          MaxFr     \* frames per stack
+          MaxFr,    \* frames per stack
+          Big       \* TRUE: few, long stacks (the runtime prints at most 100 frames: 50 + marker + 50) instead of all short ones
 
 VARIABLES phase, dump, v, tail, rep
 vars == <<phase, dump, v, tail, rep, ps>>   \* ps (Pipeline's variable) is not used: streams are folded with RunAll
@@ -21,11 +22,14 @@ NoRep == [nops |-> 0]
 Init == /\ phase = "gen" /\ dump = <<>> /\ v = NoV /\ tail = "eof" /\ rep = NoRep /\ ps = PS0
 
 ---------------------------------------------------------------------------
-Shapes == {g \in [nfr : 0..MaxFr, elide : 0..MaxFr, created : BOOLEAN] : g.elide <= g.nfr}
+Shapes == IF Big
+          THEN {g \in [nfr : {0, 1, 50, 99, 100, 150}, elide : {0, 1, 50}, created : BOOLEAN] : g.elide <= g.nfr}
+          ELSE {g \in [nfr : 0..MaxFr, elide : 0..MaxFr, created : BOOLEAN] : g.elide <= g.nfr}
 Inds == {<<>>, <<"s","s">>, <<"t">>, <<"s","s","s","s">>}
 FileInds == {<<"t">>, <<"s","s","s","s">>}
-Variants == {x \in [ind : Inds, find : FileInds, blankind : BOOLEAN] : x.blankind => x.ind # <<>>}
-Tails == {"eof", "blankeof", "blankjunk", "junk", "junkind"}
+Variants == IF Big THEN {[ind |-> <<>>, find |-> <<"t">>, blankind |-> FALSE], [ind |-> <<"s","s">>, find |-> <<"s","s","s","s">>, blankind |-> TRUE]}
+            ELSE {x \in [ind : Inds, find : FileInds, blankind : BOOLEAN] : x.blankind => x.ind # <<>>}
+Tails == IF Big THEN {"eof", "blankjunk"} ELSE {"eof", "blankeof", "blankjunk", "junk", "junkind"}
 
 AddG == /\ Mode = "dump" /\ phase = "gen" /\ Len(dump) < MaxG
         /\ \E g \in Shapes : dump' = Append(dump, g)
